@@ -1,6 +1,7 @@
 import DmrVerif.Driver.Loop
 import DmrVerif.Driver.Trellis
 
-/-! model driver for property C10 (rate ¾ trellis) -/
+/-! model driver for property C10 (rate ¾ trellis): the stateless `tr.*` operations plus the object
+history (`hs.*` operations thread a `Store` through the lines of one run) -/
 
-def main : IO Unit := Dmr.Driver.runMain [Dmr.Driver.trellisOp]
+def main : IO Unit := Dmr.Driver.runMainS Dmr.Driver.trellisStep Dmr.Trellis.Store.empty
